@@ -4,13 +4,25 @@ use crate::dual::linalg::fouter11_;
 use num_traits::Pow;
 use std::sync::Arc;
 
+/// The power `x^e` as a factor of the derivative coefficient `c * x^e` of `x^p`.
+///
+/// When the coefficient `c` (`p`, or `p (p-1) / 2`) is exactly zero the term is identically zero -
+/// also at `x = 0`, where `x^e` itself is infinite and `0 * inf` would give `NaN`.
+fn coeff_pow(c: f64, x: f64, e: f64) -> f64 {
+    if c == 0.0 {
+        0.0
+    } else {
+        x.powf(e)
+    }
+}
+
 impl Pow<f64> for Dual {
     type Output = Dual;
     fn pow(self, power: f64) -> Self::Output {
         Dual {
             real: self.real.pow(power),
             vars: self.vars,
-            dual: self.dual * power * self.real.pow(power - 1.0),
+            dual: self.dual * power * coeff_pow(power, self.real, power - 1.0),
         }
     }
 }
@@ -21,7 +33,7 @@ impl Pow<f64> for &Dual {
         Dual {
             real: self.real.pow(power),
             vars: Arc::clone(self.vars()),
-            dual: &self.dual * power * self.real.pow(power - 1.0),
+            dual: &self.dual * power * coeff_pow(power, self.real, power - 1.0),
         }
     }
 }
@@ -29,8 +41,9 @@ impl Pow<f64> for &Dual {
 impl Pow<f64> for Dual2 {
     type Output = Dual2;
     fn pow(self, power: f64) -> Self::Output {
-        let coeff = power * self.real.powf(power - 1.);
-        let coeff2 = 0.5 * power * (power - 1.) * self.real.powf(power - 2.);
+        let coeff = power * coeff_pow(power, self.real, power - 1.);
+        let c2 = 0.5 * power * (power - 1.);
+        let coeff2 = c2 * coeff_pow(c2, self.real, power - 2.);
         let beta_cross = fouter11_(&self.dual.view(), &self.dual.view());
         Dual2 {
             real: self.real.powf(power),
@@ -44,8 +57,9 @@ impl Pow<f64> for Dual2 {
 impl Pow<f64> for &Dual2 {
     type Output = Dual2;
     fn pow(self, power: f64) -> Self::Output {
-        let coeff = power * self.real.powf(power - 1.);
-        let coeff2 = 0.5 * power * (power - 1.) * self.real.powf(power - 2.);
+        let coeff = power * coeff_pow(power, self.real, power - 1.);
+        let c2 = 0.5 * power * (power - 1.);
+        let coeff2 = c2 * coeff_pow(c2, self.real, power - 2.);
         let beta_cross = fouter11_(&self.dual.view(), &self.dual.view());
         Dual2 {
             real: self.real.powf(power),
